@@ -275,6 +275,10 @@ def global_rewrites(src, ed, a, b, log):
     for m in src.find_code(r"Box<dyn Iterator<Item\s*=\s*usize>(\s*\+\s*'\w+)?>", a, b):
         ed.add(m.start(), m.end(), 'AbsIter', ('rw', 'R1'))
         log.append('R1')
+    # R0: module paths inside the crate are flattened (all extracted items live in one file)
+    for m in src.find_code(r'\bcrate::(?:[a-z_][a-z0-9_]*::)+', a, b):
+        ed.add(m.start(), m.end(), '', ('rw', 'R0'))
+        log.append('R0')
     # R1a: once / empty
     for m in src.find_code(r'Box::new\(\s*std::iter::once\(', a, b):
         inner_open = m.end() - 1
@@ -416,6 +420,9 @@ def assemble(unit, canary=False):
             text = re.sub(r'pub\(crate\)\s*', 'pub ', text)
             # named fields -> pub
             text = re.sub(r'(?m)^(\s+)(?!pub\b)(\w+\s*:)', r'\1pub \2', text)
+            # tuple struct with one private field
+            text = re.sub(r'^(struct\s+\w+(?:<[^>]*>)?)\((?!pub\b)', r'\1(pub ', text)
+            text = text.replace("<'static>", '<\'static>')
             text = re.sub(r"Box<dyn Iterator<Item\s*=\s*usize>(\s*\+\s*'\w+)?>", 'AbsIter', text)
             for o in opts:
                 if o.startswith('sub:'):
